@@ -63,10 +63,8 @@ def showVal : Val → String
   | .payment p => showPayment p
   | .coins n => s!"c{n}"
 
-def sortEntries (es : List Entry) : List Entry := es.mergeSort (fun a b => bytesLe a.1 b.1)
-
 def showRaw (s : Store) : String :=
-  let es := sortEntries s
+  let es := sortEntries s.entries
   if es.isEmpty then "-" else " ".intercalate (es.map fun e => s!"{hexOf e.1}={showVal e.2}")
 
 def parseOrderFields (id : UInt64) (fs : List String) : Option Order :=
